@@ -349,6 +349,7 @@ func runHistory(cfg histCfg, ch *env.Chooser) *histObs {
 		return false
 	}
 	w.T.Horizon = cfg.Horizon
+	w.T.MaxAttempts = 300 // single commands and short walks; a correct retry loop ends long before
 	w.T.Menu = func(t *env.Transport, req []byte) []env.Answer {
 		if alpha == nil || curOp < 0 || !menuOn(curOp) {
 			return []env.Answer{env.Honest()}
